@@ -268,6 +268,9 @@ func genExpr(t *rapid.T, depth int) string {
 			return sign + fmt.Sprintf("0%o", rapid.IntRange(lo, 63).Draw(t, "oct"))
 		case k == 3:
 			return sign + strconv.FormatInt(rapid.Int64Range(1, 1<<62).Draw(t, "big"), 10)
+		case k == 5 && rapid.IntRange(0, 5).Draw(t, "underscore") == 0:
+			// Go's own literal syntax allows these; the library's integer syntax does not
+			return sign + rapid.SampledFrom([]string{"0x_ff", "0x1_0", "0XA_B", "1_000", "0_7", "0b101", "0o17", "1e3"}).Draw(t, "goLit")
 		case k == 4 && rapid.Bool().Draw(t, "limit"):
 			// the limits of int64 in every base (the smallest value only exists with its sign)
 			return rapid.SampledFrom([]string{"-9223372036854775808", "9223372036854775807", "-0x8000000000000000", "0x7FFFFFFFFFFFFFFF",
